@@ -400,6 +400,8 @@ def replay_ring(case) -> List[Tuple[str, str]]:
             fails.append(("ContainsResult", f"ring.contains -> {got}, spec {o['r']}"))
     elif op == "clear":
         r.clear()
+    elif op == "extend":
+        r.extend(iter(list(o["b"])) if len(o["b"]) % 2 else list(o["b"]))      # a list or a one-shot iterable
     if r.tolist() != list(t["post"]["q"]) or len(r) != len(t["post"]["q"]):
         fails.append(("StrictLRU", f"ring after {op}: {r.tolist()}, spec {t['post']['q']}"))
     if len(r) > consts["K"]:
@@ -496,7 +498,7 @@ def check(run) -> None:
                     [("DetLRU", replay_detlru)])
     # ---- Ring ----
     for k in ([0, 1, 2, 3] if q else [0, 1, 2, 3, 4]):
-        consts = {"Keys": K3, "K": k}
+        consts = {"Keys": K3, "K": k, "MaxBatch": k + 2 if k < 3 else 4}
         _family(run, "Ring", f"Ring_k{k}", consts,
                 ["WithinEntries", "ZeroCapacityDisabled", "RefBounded", "NoPhantomMember"], [],
                 [("DedupeRing", replay_ring)])
